@@ -511,7 +511,9 @@ def run(tier, seed, replay=None):
                 bad = "centre/area"
             elif ct["area"] > 0 and abs(ct["pressure"] - norm(ct["force"]) / ct["area"]) > 1e-9 * max(1e-300, ct["pressure"]):
                 bad = "pressure"
-            elif ct["tris"] != [[0, k + 1, k + 2] for k in range(len(ct["poly"]) - 2)]:
+            elif ct["tris"] != [[0, k + 1, k + 2] for k in range(min(len(ct["poly"]), 8) - 2)]:
+                # (TRIANGLES has 6 rows: a polygon with more than 8 vertices - unfiltered duplicate vertices - is
+                #  integrated over its first 8; its area is judged against the exact polygon by C15)
                 bad = "triangles"
             if bad:
                 R.failure(f"world-frame details: {bad} is not the image of the contact computed in body 2's frame under frame2world",
